@@ -90,7 +90,7 @@ static Plan gen_c05(uint64_t seed, const std::string &tier) {
             marks.push_back((long)x.full.size());
         }
         long lm = pick_limit(r, total);
-        if (!marks.empty() && r.chance(3, 4)) { lm = marks[r.below(marks.size())] + r.range(-2, 2); if (lm < 255) lm = 255; if (lm > 1048575) lm = 1048575; }
+        if (!marks.empty() && r.chance(3, 4)) { lm = marks[r.below(marks.size())] + (r.chance(1, 3) ? r.range(0, 40) : r.range(-2, 2)); /* also: room for a part of the pieces of an [ERROR: ...] text only */ if (lm < 255) lm = 255; if (lm > 1048575) lm = 1048575; }
         s.has_logmax = true; s.logmax = std::to_string(lm);
     }
     int oc = (int)r.below(10);
@@ -98,6 +98,7 @@ static Plan gen_c05(uint64_t seed, const std::string &tier) {
     if (oc == 0) { s.output = "devlog"; s.has_ident = true; size_t n = r.chance(1, 2) ? (size_t)r.range(250, 260) : (size_t)r.range(1, 40); s.ident = r.chance(1, 2) ? std::string(n, 'I') : "%{snoopy_literal:" + std::string(n, 'i') + "}-%{uid}"; }
     else if (oc == 1) { size_t n = r.chance(1, 2) ? (size_t)r.range(4080, 4100) : (size_t)r.range(1, 200); w.env.push_back("PATHPART=" + std::string(n, 'p')); s.output = "file:/log/%{env:PATHPART}"; }
     else s.output = "file:/log/out";
+    if (r.chance(1, 4)) { s.has_errlog = true; s.errlog = "yes"; if (r.chance(1, 2) && s.output == "file:/log/out") { w.env.push_back("PATHPART=" + std::string((size_t)r.range(1, 30), 'p')); s.output = "file:/log/%{env:PATHPART}-%{uid}"; } }   // every piece that does not fit is reported through the output while the message is being built
     p.ops.push_back(op_setconfig(s.render(r, true)));
     if (r.chance(1, 3)) p.ops.push_back(op_exec(e));   // not the first exec of the process: the same limits hold for every call
     p.ops.push_back(op_exec(e));
@@ -126,9 +127,20 @@ static Verdict oracle_c05(const Plan &p, const RunResult &r) {
         CallCtx ctx = make_ctx(cv.w, *cv.op, r, cv.opi);
         Expected e = model_call(cv.w, *cv.op, ctx);
         if (!e.log || e.sink.compare(0, 5, "file:") != 0) continue;
-        std::string rec = file_record(r, cv.opi, e.sink.substr(5));
+        std::string rec;
+        if (e.cfg.error_logging) {
+            // with error logging on, every piece that does not fit is reported through the same output: those lines are not the message
+            for (auto &d : deliveries_all(r, cv.opi)) if (d.sink == e.sink && d.bytes != "Maximum destination string size exceeded\n") rec += d.bytes;
+        } else rec = file_record(r, cv.opi, e.sink.substr(5));
         if (rec.empty()) continue;
         if (rec.back() == '\n') rec.pop_back();
+        // whatever the limits leave of the message is made of the expansion: it can be obtained from it by leaving bytes out (pieces
+        // that did not fit, tails that were cut), never by putting in bytes that are not part of it
+        if (!e.msg.exact && e.msg.modelled && !e.msg.texts.empty()) {
+            bool sub = false;
+            for (auto &full : e.msg.texts) { size_t k = 0; for (size_t i = 0; i < full.size() && k < rec.size(); i++) if (full[i] == rec[k]) k++; if (k == rec.size()) { sub = true; break; } }
+            if (!sub) return bad("limited-message-not-from-expansion", "call #" + std::to_string(cv.opi) + ": the limited message contains bytes that are not part of the expansion of the format: " + show(rec.size() > 160 ? rec.substr(rec.size() - 160) : rec, 160) + " ; full expansion ends " + show(e.msg.texts[0].size() > 160 ? e.msg.texts[0].substr(e.msg.texts[0].size() - 160) : e.msg.texts[0], 160));
+        }
         if ((long)rec.size() > e.cfg.logmax) return bad("message-over-limit", "message of " + std::to_string(rec.size()) + " bytes with log_message_max_length = " + std::to_string(e.cfg.logmax));
         if (!e.msg.exact && e.msg.segs_ok && e.msg.cut_total <= e.cfg.logmax && !e.cfg.error_logging && !match_segments(e.msg.segs, rec, e.cfg.dsmax))
             return bad("cut-message-structure", "call #" + std::to_string(cv.opi) + ": some value exceeds datasource_message_max_length = " + std::to_string(e.cfg.dsmax) + " and the whole still fits log_message_max_length, but the record is not 'literals and fitting values verbatim, a non-empty prefix of at most that many bytes for each cut value': " + show(rec, 160));
@@ -479,6 +491,9 @@ static Plan gen_c12(uint64_t seed, const std::string &tier) {
     Plan p; p.property = "C12"; p.seed = seed; p.world = gen_world(r);
     World &w = p.world;
     if (w.cwd.size() > 300) w.cwd = w.cwd.substr(0, 300);
+    // a working directory reached by relative steps can be longer than the kernel's getcwd names (4095 bytes): glibc then walks up ".." and
+    // names it as long as the caller's buffer holds it
+    if (r.chance(1, 12)) { static const int L[] = {4094, 4095, 4096, 4097, 4100, 6000}; size_t want = (size_t)L[r.below(6)]; w.cwd.clear(); while (w.cwd.size() < want) { size_t c = std::min<size_t>(want - w.cwd.size() - 1, 200); if (c == 0) { w.cwd.back() = 'y'; w.cwd += "z"; break; } w.cwd += "/" + std::string(c, (char)('a' + w.cwd.size() % 26)); } w.cwd_errno = 0; }
     if (w.env.size() > 40 && r.chance(2, 3)) w.env.resize(40);
     std::vector<std::string> tags;
     for (auto d : C12_DS) tags.push_back(d);
@@ -705,7 +720,12 @@ static std::string c02_config(Rng &r, const World &w, J &probes) {
     }
     // boundary-directed
     CfgSpec s; std::string extra;
-    switch (r.below(16)) {
+    switch (r.below(17)) {
+    case 16: {   // records around and beyond the sizes stdio and the kernel work in (4096, 8192, 65536, 128 KiB), through every kind of output
+        static const long around[] = {4096, 8192, 16384, 65536, 131072, 212992}; long n = around[r.below(6)] + r.range(-40, 40); if (r.chance(1, 4)) n = r.range(3000, 300000);
+        static const char *o[] = {"stdout", "stderr", "devtty", "file:/log/big.log", "socket:/run/snoopy-0.sock", "devlog", "devnull"};
+        s.has_output = true; s.output = o[r.below(7)]; s.has_dsmax = true; s.dsmax = "1048575"; s.has_logmax = true; s.logmax = "1048575";
+        s.has_format = true; s.format = r.chance(1, 2) ? "%{env:LONGPATH}" : "%{env:LONGPATH} %{filename}"; extra = std::string((size_t)n, 'r'); probes.set("p_record_ge_4096", n >= 4096); break; }
     case 0: { size_t n = (size_t)(r.chance(1, 2) ? r.range(95, 105) : r.range(100, 900)); s.has_format = true; s.format = "x%{" + std::string(n, r.chance(1, 2) ? 'T' : ':') + "}y"; probes.set("p_tag_ge_100", n >= 98); break; }
     case 1: { long lim = r.chance(1, 2) ? 255 : r.range(255, 700); long len = lim + r.range(-1, 1); s.has_format = true; s.format = std::string((size_t)len, 'L'); s.has_logmax = true; s.logmax = std::to_string(lim); probes.set("p_msg_eq_limit", len == lim); break; }
     case 2: { static const char *v[] = {":", ":file", "::", "file:", ":/x", "devlog:", "a:", "socket:", "socket:" , "file::x"}; s.has_output = true; s.output = v[r.below(10)]; probes.set("p_output_colon", true); break; }
